@@ -11,7 +11,7 @@ _loop = None
 
 
 class Timeout(Exception):
-    pass
+    _vf_harness = True      # not wrapped by run.under_test: the loopback did not answer, no verdict on the message
 
 
 def _free_port():
@@ -58,6 +58,13 @@ class Loop:
             except (requests.exceptions.Timeout, requests.exceptions.ConnectionError):
                 time.sleep(0.2)
                 continue
+            except Exception as e:
+                # the layer turns a refused / timed-out connection (0.5 s, easily exceeded on a loaded machine) into
+                # UnreachableAgent: a transport hiccup of the loopback, not a property of the message -> retry
+                if type(e).__name__ == "UnreachableAgent":
+                    time.sleep(0.3)
+                    continue
+                raise
             if len(self.received) > n:
                 return self.received[-1]
         raise Timeout()
